@@ -267,5 +267,5 @@ def _join(pieces, rnd):
     that was not separated stays unseparated"""
     out = ""
     for isw, txt in pieces:
-        out += rnd.choice([" ", "\n", "  ", " ; c\n", "\n\n", "\n ;; x\n "]) if isw else txt
+        out += rnd.choice([" ", "\n", "  ", " ; c\n", "\n\n", "\n ;; x\n ", "\t", "\r\n", "\f", "\v", " \r", "\u00a0", "\u2028", " \u0085"]) if isw else txt
     return out
